@@ -48,7 +48,9 @@ Parent0 == 13          \* height of the parent of the first block (fixture base 
 Base == 10000          \* CommissionRateBase
 
 VoteKinds == {"prevote", "precommit", "nextindex", "certificate"}
-NotVotes == {"forged", "otherkey", "garbage", "otherindex", "otherround"}
+\* (reuseA / reuseB: the BYTES of the signer's genuine signature over hash A / B of this round and index, attached to a pair
+\*  that names another hash -- signature bytes of a genuine vote on a different payload)
+NotVotes == {"forged", "otherkey", "garbage", "otherindex", "otherround", "reuseA", "reuseB"}
 
 VARIABLES vals, wq, pen,     \* builder chain state: validator records, withdraw queue, penalty account
           k,                 \* number of blocks built
@@ -210,10 +212,11 @@ Case(signer, idx, kind, roff, pairs) ==
 P(src, h) == [src |-> src, h |-> h]
 
 \* every (source, hash) a pair can be made of
-PairAlphabet == { P(s, h) : s \in VoteKinds, h \in {"A", "B", "E"} } \cup { P("forged", "A"), P("otherkey", "A"), P("garbage", "B"), P("otherindex", "B"), P("otherround", "B") }
+PairAlphabet == { P(s, h) : s \in VoteKinds, h \in {"A", "B", "E"} } \cup { P("forged", "A"), P("otherkey", "A"), P("garbage", "B"), P("otherindex", "B"), P("otherround", "B"),
+                      P("reuseA", "B"), P("reuseA", "E"), P("reuseB", "A") }
 \* a total order on the pair alphabet, to enumerate unordered pairs once
 SrcNo(s) == CASE s = "prevote" -> 1 [] s = "precommit" -> 2 [] s = "nextindex" -> 3 [] s = "certificate" -> 4 [] s = "forged" -> 5
-              [] s = "otherkey" -> 6 [] s = "garbage" -> 7 [] s = "otherindex" -> 8 [] OTHER -> 9
+              [] s = "otherkey" -> 6 [] s = "garbage" -> 7 [] s = "otherindex" -> 8 [] s = "otherround" -> 9 [] s = "reuseA" -> 10 [] OTHER -> 11
 HNo(h) == CASE h = "A" -> 1 [] h = "B" -> 2 [] OTHER -> 3
 Ord(p) == SrcNo(p.src) * 10 + HNo(p.h)
 PairCases == { Case(sg, "right", kd, 0, pq) : sg \in {1, 2}, kd \in VoteKinds,
@@ -241,7 +244,12 @@ ListCases == { Case(2, "right", "prevote", 0, <<P("prevote", "A"), P("prevote", 
                Case(2, "right", "prevote", 0, <<P("prevote", "A"), P("forged", "B")>>),
                Case(2, "right", "precommit", 0, <<P("garbage", "A"), P("garbage", "B")>>),
                Case(1, "wrong", "prevote", 0, <<P("prevote", "A"), P("prevote", "B")>>),      \* v1's signatures, v2's index
-               Case(1, "right", "certificate", 0, <<P("certificate", "A"), P("otherkey", "B")>>) }
+               Case(1, "right", "certificate", 0, <<P("certificate", "A"), P("otherkey", "B")>>),
+               \* signature bytes re-used: one honest vote and its own bytes under another hash in ONE blob; and a blob made only of
+               \* re-used bytes, which lists put after an evidence (accepted or rejected) in which the genuine pair was verified --
+               \* the verdict on an evidence must not depend on what the same verifier has seen before
+               Case(1, "right", "prevote", 0, <<P("prevote", "A"), P("reuseA", "B")>>),
+               Case(2, "right", "prevote", 0, <<P("reuseA", "B"), P("reuseA", "E")>>) }
 
 \* validator-set changes: a genuine equivocation of every identity (incl. the new validator v6 and the removed v5, v7), for
 \* every kind, with the index from the prescribed set and with the index from the other look-back set
